@@ -29,7 +29,7 @@ CHECKS = [
     {"id": "C01", "engine": "E0+E1+E2+refgrammar", "level": "other",
      "text": "Grammar conformance on the model extracted from the parser source by abstract interpretation: exact vocabulary and token-type closure; FIRST-based guard adequacy at every decision point of every production clone "
              "(no token a called production can start with is rejected by the guards on all paths); inclusion of an independently transcribed ISO C99 Annex A.2 (+ documented C11) grammar in the extracted model, decided on a "
-             "derivation-covering set of ~30k (thorough ~46k) reference sentences by a memoised recogniser over the extracted automata with exact mark/reset semantics.",
+             "derivation-covering set of ~30k (thorough ~46k) reference sentences by a memoised recogniser over the extracted automata with exact mark/reset semantics. Also: the scanning loop skips exactly C99's white-space characters (R-C01.8).",
      "design_ref": "DESIGN.md section 3, C01 and Appendix A",
      "note": "Inclusion is decided on the covering sentence set, not for all sentences (CFG inclusion is undecidable); semantic predicates are free choices, so the model may over-accept but never under-accepts; agreement with gcc is not decided; the reference EBNF is a trusted reading of ISO C.",
      "technique": "grammar extraction by abstract interpretation + FIRST/LL guard analysis + bounded reference-grammar inclusion with a recogniser over the extracted automata"},
@@ -41,7 +41,7 @@ CHECKS = [
      "technique": "constant folding + relational schema recognition + flow-sensitive def-use (reaching definitions) wiring comparison"},
     {"id": "C03", "engine": "E1+E1b", "level": "other",
      "text": "Def-use wiring of all declaration / declarator / struct / enum / initialiser productions and declaration builders against the reviewed reference (pointer nesting, suffix order, inside-out call protocol, field-from-same-named-list), "
-             "plus per-branch rules on the two specifier loops (kind matches token table, append=True, saw_type recorded) and their sibling agreement. The splice loops are not proved for arbitrary derivation sequences.",
+             "plus per-branch rules on the two specifier loops (kind matches token table, append=True, saw_type recorded) and their sibling agreement. The splice loops are not proved for arbitrary derivation sequences. Also: specifier conservation - every kind of specifier C allows in a context reaches the node built there (R-C03.4).",
      "design_ref": "DESIGN.md section 3, C03",
      "note": "Partial: heap-shape correctness of _type_modify_decl / _fix_decl_name_type / fix_atomic_specifiers for unbounded chains would need shape analysis (not claimed).",
      "technique": "flow-sensitive def-use wiring comparison + sibling cross-check of the specifier loops"},
@@ -54,7 +54,7 @@ CHECKS = [
      "technique": "typestate / who-may-call rules + structural loop rule + def-use wiring of registration sites + path analysis (declarator - consumption - registration order, brace depth) on the extracted event automata"},
     {"id": "C05", "engine": "E1+E1b", "level": "other",
      "text": "Def-use wiring of the 19 statement-level productions and of the switch-regrouping transform against the reviewed reference (else binds to the nearest if, single-statement bodies, for-clauses in order, block items appended in source order, "
-             "one Pragma per directive from its own token); Case/Default class tests agree; per-path append count of the regrouping loop is exactly one.",
+             "one Pragma per directive from its own token); Case/Default class tests agree; per-path append count of the regrouping loop is exactly one. Also: the switch regrouping looks through every wrapper class the labeled-statement productions can put around a case label (R-C05.7).",
      "design_ref": "DESIGN.md section 3, C05",
      "note": "Run-time tree equality is not executed; sa/wiring_ref.json reviewed against C99 6.8.",
      "technique": "flow-sensitive def-use wiring comparison + linearity (append-count) analysis"},
@@ -75,7 +75,7 @@ CHECKS = [
     {"id": "C07", "engine": "E0+E3+E4+E1b", "level": "other",
      "text": "Structural clauses of the round trip, decided on the generator source: the generator's precedence map and the parser's table induce the same weak order; for every operand slot and every expression class that binds looser than "
              "the level at which the parser parses that slot, the visitor's emission idiom parenthesises the child (finite evaluation of the parenthesisation predicates, both reduce_parentheses configurations); every class that can be an "
-             "expression statement is terminated; every node class has a visitor that reads every field the parser can fill; the declarator inversion of _generate_type has the inside-out shape; prefix operators are never fused with an operand starting with the same character.",
+             "expression statement is terminated; every node class has a visitor that reads every field the parser can fill; the declarator inversion of _generate_type has the inside-out shape; prefix operators are never fused with an operand starting with the same character. Also: fields that can hold a GNU statement expression are printed through _visit_expr (R-C07.8); qualifiers kept only in Decl.quals are printed or mirrored (R-C07.4).",
      "design_ref": "DESIGN.md section 3, C07 and Appendix B",
      "note": "Equality of two run-time ASTs and text idempotence are not executed; 9 genuine generator defects (D7, D8 family) are recorded as known findings; whitespace/indentation text is not modelled.",
      "technique": "custom ast lint of the generator: emission-idiom extraction + finite abstract evaluation of parenthesisation predicates against the parser's grammar levels"},
@@ -88,14 +88,14 @@ CHECKS = [
     {"id": "C09", "engine": "E0+E2", "level": "other",
      "text": "On the tokeniser function model built from the regex syntax trees and the fixed-token table: maximal munch for ALL strings (product of the leftmost-first DFA with the subset DFA of the union of all rules and punctuators), "
              "every C99 punctuator lexes to its own token, bucket discipline, classification order keyword -> typedef -> ID, symbolic evaluation of the cursor code across newlines (line start / line number), progress of every scanning loop, "
-             "and sibling agreement of the hand-written directive scanners.",
+             "and sibling agreement of the hand-written directive scanners. Also: the #line scanner accepts every digit sequence (language inclusion on the automaton of its numeric patterns, R-C09.8) and every find() result is checked against -1 before use.",
      "design_ref": "DESIGN.md section 3, C09",
      "note": "Python's re is modelled by an ordered-NFA leftmost-first automaton (cross-checked during development, trusted at check time); losslessness of whitespace/comments is by the property's own exclusion of blanks.",
      "technique": "regex syntax trees -> automata (leftmost-first DFA vs. longest-match subset DFA product) + symbolic evaluation of the lexer's cursor arithmetic"},
     {"id": "C10", "engine": "E0+E2", "level": "other",
      "text": "Exact language comparison for strings of every length: the tokeniser function (leftmost-first model of the master regex composed with the fixed-token scan) is compared by automata "
              "products with reference C99 6.4.4/6.4.5 languages (lower bound, per named part) and the documented lenient languages (upper bound); malformed-literal languages must reach ERROR rules; "
-             "constant typing is decided by evaluating _parse_constant on the finite abstraction (class x last-three-characters window) computed from the same automaton.",
+             "constant typing is decided by evaluating _parse_constant on the finite abstraction (class x last-three-characters window) computed from the same automaton. Also: the documented lenient extension is a lower bound too (Lenient_K subset of Lex_K).",
      "design_ref": "DESIGN.md section 3, C10 and Appendix D",
      "note": "Assumes Python's re implements ordered alternation / greedy repetition / 1-char negative look-ahead as modelled (cross-checked once against re on 300k random strings during development, not at check time); reference languages are my reading of C99.",
      "technique": "regular-language inclusion on DFAs built from re._parser syntax trees (leftmost-first determinisation) + finite abstract evaluation"},
@@ -125,7 +125,7 @@ CHECKS = [
      "text": "(Not claimed as a proof of the whole property: the traversal clause has known findings D31 / D32 - nodes kept in plain attributes.) Exhaustive obligation table: each of the 49 classes of _c_ast.cfg x (existence, __init__, __slots__, attr_names, children(), "
              "__iter__, no extra members) is compared with the class shape extracted from c_ast.py; plus template-structure obligations on "
              "_ast_gen.py and dispatch / recursion-shape obligations on NodeVisitor.visit, generic_visit and Node.show. Visit counts on concrete "
-             "trees follow by induction on the tree.",
+             "trees follow by induction on the tree. Also: __iter__ returns an iterator (generator function or iter(...)).",
      "design_ref": "DESIGN.md section 3, C14",
      "note": "Trusted: the checker's independent reader of _c_ast.cfg; emission forms outside the recognised templates are reported as ANALYSIS-ERROR, not as a pass.",
      "technique": "specification-vs-class-shape comparison over the ast (exhaustive table of obligations)"},
@@ -146,7 +146,7 @@ CHECKS = [
     {"id": "C13", "engine": "E0+E5", "level": "proof",
      "text": "Ownership proof: every write effect of every function in the package is shown not to reach module-level, "
              "class-level, default-argument or imported-module state; with per-instance state only, no schedule of "
-             "separate instances can make them interact.",
+             "separate instances can make them interact. Also: shared objects placed inside a fresh container bound to an instance attribute are tracked with their depth.",
      "design_ref": "DESIGN.md section 3, C13",
      "note": "Assumes CPython byte-code atomicity for thread-private objects; alias analysis is flow-insensitive may-alias "
              "inside a function; callers' own arguments are not shared state.",
@@ -155,7 +155,7 @@ CHECKS = [
      "text": "The 129 shipped headers are analysed as a preprocessor program without running cpp: include closure under cpp's search order, include guards around every file with declarations, no conditional on a dialect-dependent macro and no identifier "
              "that only the GNU dialects predefine, every header alone and every ordered pair (thorough: triples and all permutations of the non-stub files) is a sequence of complete declarations accepted by the grammar model extracted from the parser, "
              "tokenised by the tokeniser model, with identifiers classified by the type names declared so far under their presence conditions; no cross-file macro capture; every declared type name stays usable; symbolic evaluation of the cpp command line "
-             "for the three argument forms; parse_file(use_cpp=True) is structurally parser.parse(preprocess_file(filename, cpp_path, cpp_args), filename).",
+             "for the three argument forms; parse_file(use_cpp=True) is structurally parser.parse(preprocess_file(filename, cpp_path, cpp_args), filename). Also: every public header reaches the central typedef list; no #if operand is a macro defined with an empty body.",
      "design_ref": "DESIGN.md section 3, C19",
      "note": "cpp and parse_file are never run: cpp's documented behaviour (search order, expansion, predefined macros per dialect) is trusted; acceptance by the grammar model is necessary, not sufficient, for acceptance by the parser (semantic predicates are free choices); "
              "run-time equality with a by-hand pipeline is not executed.",
